@@ -254,8 +254,15 @@ def run_shard(desc, seed, tier):
         # small programs around dynamic arrays / nested allocation (the C04 grid), every word size 2..8 bytes:
         # values stay tiny, so all word sizes must print the same
         from props.C04 import vla_grid_programs
-        for pi, (name, src) in enumerate(vla_grid_programs()):
-            if tier == 'quick' and pi % 3 != seed % 3:
+        # plus: constant data reached through conversions whose address arithmetic involves the word size
+        extra = [
+            ('strbytes:literal', 'empty show(const byte[] p) { write(p.length); for (int i = 0; i < p.length; i += 1) { write(p[i]); } }\nempty @is_you(int n) { show("baba is you"); write("keke" is byte[]); const byte[] m = "flag"; write(m); write(m[n % 4]); }'),
+            ('strbytes:const', 'const string GS = "wall is stop";\nempty show(const byte[] p) { write(p.length); write(p[0]); write(p[p.length - 1]); }\nempty @is_you(int n) { show(GS); write(GS is byte[]); write(GS[n]); write(GS.length); }'),
+            ('strarr', 'const string[] SS = ["a", "bcd", "", "efgh"];\nempty @is_you(int n) { for (int i = 0; i < SS.length; i += 1) { write(SS[i]); write(SS[i].length); } string s = SS[n % 4]; write(s); write(s is byte[]); }'),
+            ('consttab', 'const int[] T = [3, 1, 4, 1, 5, 9, 2, 6];\nconst bool[] B = [true, false, true, true, false, false, true, false, true];\nempty @is_you(int n) { write(T[n % 8]); write(T[7]); write(B[8]); write(B[n % 9]); write(T.length + B.length); }'),
+        ]
+        for pi, (name, src) in enumerate(vla_grid_programs() + extra):
+            if tier == 'quick' and pi % 3 != seed % 3 and not name.startswith(('strbytes', 'strarr', 'consttab')):
                 continue
             for n in (3, 9):
                 base = None
@@ -299,7 +306,9 @@ def replay(case):
     if case.get('kind') == 'wgrid':
         from props.C04 import vla_grid_programs
         name, n = case['value']
-        src = dict(vla_grid_programs())[name]
+        src = dict(vla_grid_programs()).get(name)
+        if src is None:
+            return None     # the extra constant-data programs are re-run by every wgrid shard anyway
         base = run_lines(compile_lines(src, 2, S0, False), [str(n)], budget=400_000)
         for ws in (3, 4, 5, 6, 7, 8):
             r = run_lines(compile_lines(src, ws, S0, False), [str(n)], budget=400_000)
